@@ -35,6 +35,7 @@ const (
 	skStruct          // record of values (flag sets, typed error literals): fields
 	skBits            // integer whose bits are formulas (bit sets): bits, LSB first
 	skArr             // fixed array of values: elems
+	skLin             // integer as a linear form: lbase + Σ [guard]·k (+ len(GV(label))): lterms
 )
 
 type sval struct {
@@ -54,6 +55,41 @@ type sval struct {
 	// skBits / skArr
 	bits  []*bform
 	elems []sval
+	// skLin
+	lbase  int64
+	lterms []linTerm
+}
+
+type linTerm struct {
+	guard *bform // nil = always
+	k     int64
+	lenOf string // when set, the term is len(GV(lenOf)) instead of k
+}
+
+// semitLinearInts: integers that differ between merged branches become linear
+// forms (sizing functions) instead of bit vectors (bit sets). Set only while a
+// sizing function is interpreted.
+var semitLinearInts bool
+
+func asLin(v sval) (sval, bool) {
+	switch {
+	case v.k == skLin:
+		return v, true
+	case v.k == skConc && v.c.K == VInt:
+		return sval{k: skLin, lbase: v.c.I}, true
+	}
+	return sval{}, false
+}
+
+func linTermEq(a, b linTerm) bool {
+	ga, gb := "", ""
+	if a.guard != nil {
+		ga = a.guard.String()
+	}
+	if b.guard != nil {
+		gb = b.guard.String()
+	}
+	return ga == gb && a.k == b.k && a.lenOf == b.lenOf
 }
 
 type sref struct {
@@ -83,6 +119,7 @@ type bform struct {
 	label string
 	lit   string
 	x, y  *bform
+	str   string // cached String()
 }
 
 func bAtom(l, s string) *bform { return &bform{op: "atom", label: l, lit: s} }
@@ -129,6 +166,13 @@ func (f *bform) String() string {
 	if f == nil {
 		return "true"
 	}
+	if f.str == "" {
+		f.str = f.render()
+	}
+	return f.str
+}
+
+func (f *bform) render() string {
 	switch f.op {
 	case "atom":
 		return fmt.Sprintf("%s==%q", f.label, f.lit)
@@ -310,6 +354,8 @@ type semit struct {
 	pc *bform
 	// the interpreted code read receiver bytes directly (pieces may need lifting)
 	readBytes bool
+	// interpreting a sizing function: integer helpers over the receiver are inlined
+	sizing bool
 }
 
 type oobCheck struct {
@@ -471,6 +517,16 @@ func svalEqual(a, b sval) bool {
 			}
 		}
 		return true
+	case skLin:
+		if a.lbase != b.lbase || len(a.lterms) != len(b.lterms) {
+			return false
+		}
+		for i := range a.lterms {
+			if !linTermEq(a.lterms[i], b.lterms[i]) {
+				return false
+			}
+		}
+		return true
 	}
 	return false
 }
@@ -541,6 +597,29 @@ func mergeVal(c *bform, v1, v2 sval) (sval, error) {
 			out.elems = append(out.elems, m)
 		}
 		return out, nil
+	}
+	if semitLinearInts || v1.k == skLin || v2.k == skLin {
+		if l1, ok1 := asLin(v1); ok1 {
+			if l2, ok2 := asLin(v2); ok2 {
+				n := 0
+				for n < len(l1.lterms) && n < len(l2.lterms) && linTermEq(l1.lterms[n], l2.lterms[n]) {
+					n++
+				}
+				out := sval{k: skLin, lbase: l2.lbase, lterms: append([]linTerm(nil), l1.lterms[:n]...)}
+				if l1.lbase != l2.lbase {
+					out.lterms = append(out.lterms, linTerm{guard: c, k: l1.lbase - l2.lbase})
+				}
+				for _, tm := range l1.lterms[n:] {
+					tm.guard = bAnd(c, tm.guard)
+					out.lterms = append(out.lterms, tm)
+				}
+				for _, tm := range l2.lterms[n:] {
+					tm.guard = bAnd(bNot(c), tm.guard)
+					out.lterms = append(out.lterms, tm)
+				}
+				return out, nil
+			}
+		}
 	}
 	if v1.k == skConc && v2.k == skConc && v1.c.K == VInt && v2.c.K == VInt && v1.c.I >= 0 && v2.c.I >= 0 {
 		v1 = sval{k: skBits, bits: bitsOf(v1.c.I, 64)}
@@ -941,7 +1020,47 @@ func (in *semit) exec(st *sstate, s ast.Stmt) ([]sout, error) {
 			return nil, err
 		}
 		if tag.k != skConc {
-			return nil, serr(s, "switch on a symbolic value")
+			// symbolic tag: the chain `if tag == c1 … else if tag == c2 … else default`
+			var def *ast.CaseClause
+			var clauses []*ast.CaseClause
+			for _, cc := range x.Body.List {
+				cl := cc.(*ast.CaseClause)
+				if cl.List == nil {
+					def = cl
+				} else {
+					clauses = append(clauses, cl)
+				}
+				for _, bs := range cl.Body {
+					if br, ok := bs.(*ast.BranchStmt); ok && br.Tok == token.FALLTHROUGH {
+						return nil, serr(bs, "fallthrough")
+					}
+				}
+			}
+			var chain ast.Stmt
+			if def != nil {
+				chain = &ast.BlockStmt{List: def.Body}
+			}
+			for i := len(clauses) - 1; i >= 0; i-- {
+				cl := clauses[i]
+				var cond ast.Expr
+				for _, e := range cl.List {
+					eq := &ast.BinaryExpr{X: x.Tag, Op: token.EQL, Y: e}
+					if cond == nil {
+						cond = eq
+					} else {
+						cond = &ast.BinaryExpr{X: cond, Op: token.LOR, Y: eq}
+					}
+				}
+				chain = &ast.IfStmt{If: cl.Pos(), Cond: cond, Body: &ast.BlockStmt{List: cl.Body}, Else: chain}
+			}
+			if chain == nil {
+				return next()
+			}
+			outs, err := in.exec(st, chain)
+			if err != nil {
+				return nil, err
+			}
+			return unbreak(outs), nil
 		}
 		var def *ast.CaseClause
 		for _, cc := range x.Body.List {
@@ -1205,6 +1324,17 @@ func (in *semit) assignStmt(st *sstate, x *ast.AssignStmt) error {
 		if l.k == skUnk || r.k == skUnk {
 			return in.store(st, x.Lhs[0], sval{k: skUnk})
 		}
+		if (l.k == skLin || r.k == skLin) && (x.Tok == token.ADD_ASSIGN || x.Tok == token.SUB_ASSIGN) {
+			op := token.ADD
+			if x.Tok == token.SUB_ASSIGN {
+				op = token.SUB
+			}
+			v, err := in.evalBinary(st, &ast.BinaryExpr{X: x.Lhs[0], Op: op, Y: x.Rhs[0], OpPos: x.TokPos})
+			if err != nil {
+				return err
+			}
+			return in.store(st, x.Lhs[0], v)
+		}
 		if l.k == skBits || r.k == skBits {
 			var op token.Token
 			switch x.Tok {
@@ -1220,6 +1350,10 @@ func (in *semit) assignStmt(st *sstate, x *ast.AssignStmt) error {
 				op = token.SHL
 			case token.SHR_ASSIGN:
 				op = token.SHR
+			case token.ADD_ASSIGN:
+				op = token.ADD
+			case token.SUB_ASSIGN:
+				op = token.SUB
 			default:
 				return serr(x, "op-assignment %s on a symbolic bit set", x.Tok)
 			}
@@ -1908,6 +2042,72 @@ func (in *semit) evalBinary(st *sstate, n *ast.BinaryExpr) (sval, error) {
 	if err != nil {
 		return sval{}, err
 	}
+	atomCount := func(vs ...sval) int {
+		at := map[string]bool{}
+		for _, v := range vs {
+			if v.k == skBits {
+				for _, bb := range v.bits {
+					bb.labels(at)
+				}
+			}
+		}
+		return len(at)
+	}
+	if semitLinearInts && n.Op == token.MUL && (a.k == skLin || b.k == skLin) {
+		// a size scaled by a constant
+		l, c := a, b
+		if l.k != skLin {
+			l, c = b, a
+		}
+		if c.k == skConc && c.c.K == VInt {
+			out := sval{k: skLin, lbase: l.lbase * c.c.I}
+			for _, tm := range l.lterms {
+				if tm.lenOf != "" && c.c.I != 1 {
+					return sval{}, serr(n, "a string length is scaled")
+				}
+				tm.k *= c.c.I
+				out.lterms = append(out.lterms, tm)
+			}
+			return out, nil
+		}
+		return sval{}, serr(n, "product of two symbolic sizes")
+	}
+	if semitLinearInts && (n.Op == token.ADD || n.Op == token.SUB) && (a.k == skBits || b.k == skBits) && (a.k == skLin || b.k == skLin || atomCount(a, b) > 10) {
+		// a symbolic small integer added to a size: one guarded constant per case
+		var err error
+		if a.k == skBits {
+			if a, err = in.bitsToLin(a, n); err != nil {
+				return sval{}, err
+			}
+		}
+		if b.k == skBits {
+			if b, err = in.bitsToLin(b, n); err != nil {
+				return sval{}, err
+			}
+		}
+	}
+	if (a.k == skLin || b.k == skLin) && (n.Op == token.ADD || n.Op == token.SUB) {
+		la, ok1 := asLin(a)
+		lb, ok2 := asLin(b)
+		if ok1 && ok2 {
+			out := sval{k: skLin, lbase: la.lbase, lterms: append([]linTerm(nil), la.lterms...)}
+			if n.Op == token.ADD {
+				out.lbase += lb.lbase
+				out.lterms = append(out.lterms, lb.lterms...)
+			} else {
+				out.lbase -= lb.lbase
+				for _, tm := range lb.lterms {
+					if tm.lenOf != "" {
+						return sval{}, serr(n, "subtraction of a string length")
+					}
+					tm.k = -tm.k
+					out.lterms = append(out.lterms, tm)
+				}
+			}
+			return out, nil
+		}
+		return sval{}, serr(n, "arithmetic between a size and a non-integer")
+	}
 	if n.Op == token.EQL || n.Op == token.NEQ {
 		if f, ok := nilCompare(a, b); ok {
 			if n.Op == token.NEQ {
@@ -2168,7 +2368,7 @@ func (in *semit) evalCall(st *sstate, n *ast.CallExpr) (sval, error) {
 				}
 			}
 			return out, nil
-		case skStruct, skBool, skArr:
+		case skStruct, skBool, skArr, skLin:
 			return v, nil
 		case skBuf, skPtr, skGet, skIte, skRecv:
 			// string(b), []byte(s), unsafe.Pointer(&b), (*string)(ptr): same content
@@ -2259,6 +2459,9 @@ func (in *semit) evalCall(st *sstate, n *ast.CallExpr) (sval, error) {
 					case VList:
 						return conc(vInt(int64(len(v.c.T)))), nil
 					}
+				}
+				if v.k == skGet && semitLinearInts {
+					return sval{k: skLin, lterms: []linTerm{{lenOf: v.label}}}, nil
 				}
 				if v.k == skGet || v.k == skBuf || v.k == skIte {
 					return sval{k: skUnk}, nil
@@ -2410,6 +2613,24 @@ func (in *semit) evalCall(st *sstate, n *ast.CallExpr) (sval, error) {
 			return sval{}, serr(n, "Get is asked for %q, which it does not know", args[0].c.S)
 		}
 		return sval{}, serr(n, "Get is called with a non-constant abbreviation")
+	}
+	// a numeric helper over the receiver alone (the sizing function): its value
+	// can only size the buffer; it is interpreted on its own (sizingLinear)
+	if !in.sizing {
+		if sig, ok := fn.Type().(*types.Signature); ok && sig.Results().Len() == 1 {
+			if b, ok := sig.Results().At(0).Type().Underlying().(*types.Basic); ok && b.Info()&types.IsInteger != 0 && b.Kind() != types.Uint8 {
+				onlyRecv := (hasRecv && recv.k == skRecv) || len(args) > 0
+				for _, a := range args {
+					if a.k != skRecv {
+						onlyRecv = false
+					}
+				}
+				if onlyRecv {
+					in.unkCalls = append(in.unkCalls, n)
+					return sval{k: skUnk}, nil
+				}
+			}
+		}
 	}
 	res, err := in.inline(st, fd, recv, hasRecv, args, n)
 	if err != nil {
@@ -3040,7 +3261,55 @@ func (l *lifter) liftList(ps []piece) ([]piece, error) {
 // caseSplit evaluates fn once per assignment of the atoms the symbolic
 // integers depend on (at most 2^10 cases), skipping assignments the current
 // path condition excludes, and merges the results.
+// bitsToLin: Σ over the assignments of the value's atoms of [assignment]·value
+func (in *semit) bitsToLin(v sval, at ast.Node) (sval, error) {
+	atoms := map[string]bool{}
+	for _, b := range v.bits {
+		b.labels(atoms)
+	}
+	var names []string
+	for a := range atoms {
+		names = append(names, a)
+	}
+	sort.Strings(names)
+	if len(names) > 10 {
+		return sval{}, serr(at, "a size term depends on %d symbolic bits", len(names))
+	}
+	out := sval{k: skLin}
+	asg := map[string]string{}
+	for m := 0; m < 1<<uint(len(names)); m++ {
+		var minterm *bform = &bform{op: "true"}
+		for i, nm := range names {
+			lit := bAtom(nm, "1")
+			if m>>uint(i)&1 == 1 {
+				asg[nm] = "1"
+				minterm = bAnd(minterm, lit)
+			} else {
+				asg[nm] = "0"
+				minterm = bAnd(minterm, bNot(lit))
+			}
+		}
+		c := concretize(v, asg)
+		if c.k != skConc || c.c.K != VInt {
+			return sval{}, serr(at, "size term is not an integer")
+		}
+		if c.c.I != 0 {
+			g := minterm
+			if len(names) == 0 {
+				g = nil
+			}
+			out.lterms = append(out.lterms, linTerm{guard: g, k: c.c.I})
+		}
+	}
+	return out, nil
+}
+
 func (in *semit) caseSplit(args []sval, at ast.Node, fn func(vs []Val) (sval, error)) (sval, error) {
+	// inside a case split integers merge into bit vectors (the split is over bits)
+	if semitLinearInts {
+		semitLinearInts = false
+		defer func() { semitLinearInts = true }()
+	}
 	atoms := map[string]bool{}
 	for _, a := range args {
 		if a.k == skBits {
@@ -3114,4 +3383,59 @@ func pcExcludes(pc *bform, asg map[string]string) bool {
 		}
 	}
 	return !pc.eval(asg)
+}
+
+// ---------------------------------------------------------------------------
+// sizing functions
+
+// sizingLinear interprets the sizing function Vector uses (lenVec) on a
+// symbolic receiver and returns its result as a linear form
+// base + Σ [condition]·k (+ string lengths), together with, per term, the
+// metrics its condition depends on.
+func (p *Pkg) sizingLinear(fd *ast.FuncDecl) (sval, [][]string, error) {
+	semitLinearInts = true
+	defer func() { semitLinearInts = false }()
+	gm := p.GetModel()
+	in := &semit{p: p, gm: gm, getFn: p.method("Get"), sizing: true}
+	st := &sstate{frames: []*sframe{{vars: map[types.Object]sval{}}}}
+	params := paramObjs(p.Info, fd)
+	var args []sval
+	for range params {
+		args = append(args, sval{k: skRecv})
+	}
+	hasRecv := fd.Recv != nil
+	res, err := in.inline(st, fd, sval{k: skRecv}, hasRecv, args, fd)
+	if err != nil {
+		return sval{}, nil, err
+	}
+	lin, ok := asLin(res)
+	if !ok {
+		return sval{}, nil, fmt.Errorf("the sizing function's result is not a sum of constants and string lengths")
+	}
+	lf := &lifter{p: p, sm: p.SetModel(), gm: gm}
+	var sets [][]string
+	for _, tm := range lin.lterms {
+		at := map[string]bool{}
+		if tm.guard != nil {
+			tm.guard.labels(at)
+		}
+		if tm.lenOf != "" {
+			at[tm.lenOf] = true
+		}
+		set := map[string]bool{}
+		for a := range at {
+			m, ok := lf.atomMetric(a)
+			if !ok {
+				return sval{}, nil, fmt.Errorf("the sizing function tests receiver bit %s, which belongs to no metric", strings.TrimPrefix(a, "B:"))
+			}
+			set[m] = true
+		}
+		var ms []string
+		for m := range set {
+			ms = append(ms, m)
+		}
+		sort.Strings(ms)
+		sets = append(sets, ms)
+	}
+	return lin, sets, nil
 }
